@@ -202,18 +202,28 @@ class Bound:
                 self.defs.setdefault(n.targets[0].id, []).append(n)
         self.problems = []
 
+    def _is_guard(self, iff):
+        t = iff.test
+        return isinstance(t, ast.Compare) and len(t.ops) == 1 and isinstance(t.ops[0], (ast.Gt, ast.GtE)) \
+            and norm(t.comparators[0]) == "self.fixed_nb_of_instances" \
+            and bool(iff.body) and all(isinstance(s, ast.Raise) for s in iff.body) and self.ev(t.left, iff) == GA
+
     def guard_for(self, node):
-        """is `node` dominated by `if <GE_ALL expr> > self.fixed_nb_of_instances: raise`?"""
+        """is `node` dominated by `if <GE_ALL expr> > self.fixed_nb_of_instances: raise` (as the else-arm of that if,
+        or as a statement that follows it in the same block)?"""
         x = node
         while x is not None and x is not self.fn:
             par = getattr(x, "_parent", None)
-            if isinstance(par, ast.If) and x in par.orelse:
-                t = par.test
-                if isinstance(t, ast.Compare) and len(t.ops) == 1 and isinstance(t.ops[0], (ast.Gt, ast.GtE)) \
-                        and norm(t.comparators[0]) == "self.fixed_nb_of_instances" \
-                        and all(isinstance(s, ast.Raise) for s in par.body):
-                    if self.ev(t.left, par) == GA:
-                        return True
+            if isinstance(par, ast.If) and x in par.orelse and self._is_guard(par):
+                return True
+            for field in ("body", "orelse"):
+                block = getattr(par, field, None)
+                if isinstance(block, list) and any(x is s for s in block):
+                    for s in block:
+                        if s is x:
+                            break
+                        if isinstance(s, ast.If) and not s.orelse and self._is_guard(s):
+                            return True
             x = par
         return False
 
